@@ -388,6 +388,33 @@ class Check:
             return None
         return exe
 
+    # ------------------------------------------------------ weak-memory search
+    def wm_litmus(self, name, imports, safe_expr, progs_expr, bad_expr, what):
+        """evaluates a boolean litmus check of coq/WM inside Coq (vm_compute).  When it is false the
+        extracted... no: the same Coq session searches a witness schedule (WM.TSO.witness) - a model-level
+        execution on the store-buffer machine - and the violation is reported with it as the replay."""
+        d = os.path.join(BUILD, "wm")
+        os.makedirs(d, exist_ok=True)
+        src = os.path.join(d, "L_%s_%s.v" % (self.prop, re.sub(r"\W", "_", name)))
+        open(src, "w").write(
+            "From Coq Require Import ZArith List Bool. Import ListNotations.\n"
+            "Require Import Verif.Base.Atomics Verif.WM.TSO Verif.WM.Litmus.\n" + imports + "\n"
+            "Eval vm_compute in (%s).\nEval vm_compute in (witness (%s) (%s)).\n" % (safe_expr, progs_expr, bad_expr))
+        with Lock("coq"):
+            rc, out, err = sh(["coqc", "-Q", COQ, "Verif", src], cwd=d, timeout=300)
+        if rc != 0:
+            self.broke("proof", "wm-litmus " + name, (out + err)[-1500:])
+            return None
+        vals = re.findall(r"=\s*((?:.|\n)*?)\n\s*:\s", out)
+        safe = bool(vals) and vals[0].strip() == "true"
+        self.notes.setdefault("wm_litmus", {})[name] = {"safe": safe, "expr": safe_expr}
+        if not safe:
+            wit = " ".join(vals[1].split()) if len(vals) > 1 else "?"
+            self.violate("wm-" + name, what + " (store-buffer machine, model-level execution): schedule " + wit,
+                         {"level": "model", "machine": "coq/WM/TSO.v", "litmus": name, "programs": progs_expr,
+                          "schedule": wit})
+        return safe
+
     # ------------------------------------------------------------- case runner
     def run_cases(self, exe, lines, timeout=600, jobs=None, env=None):
         """feeds one case per line to `exe` (which prints exactly one line per case, starting with the
